@@ -1,21 +1,41 @@
-(* C20 driver: relation-map images (sequence files are added below). *)
+(* C20 driver: relation-map images and their file-system plumbing, sequence relation files,
+   per-database and cluster-wide sequence listings.  Printers must agree with harness/c20*.go. *)
 open Model
 open Util
 
-(* ---- rendering (must agree with harness/c20.go) ---- *)
+(* ================================================================ helpers *)
+let take n l = List.filteri (fun i _ -> i < n) l
+let set_at (bs : byte list) (off : int) (nb : byte list) : byte list =
+  let a = Array.of_list bs in
+  List.iteri (fun i b -> if off + i >= 0 && off + i < Array.length a then a.(off + i) <- b) nb;
+  Array.to_list a
+let le_bytes (n : int) (v : ZA.t) : byte list =
+  List.init n (fun i -> byte_of_int (ZA.to_int (ZA.logand (ZA.shift_right v (8 * i)) (ZA.of_int 255))))
+let set_u16 bs off v = set_at bs off (le_bytes 2 (ZA.of_int v))
+let set_u32 bs off (v : ZA.t) = set_at bs off (le_bytes 4 v)
+let rtail r = if rint r 3 = 0 then rbytes r (1 + rint r 20) else []
+let two31 = ZA.shift_left ZA.one 31
+let two32 = ZA.shift_left ZA.one 32
+let two63 = ZA.shift_left ZA.one 63
+let two64 = ZA.shift_left ZA.one 64
+let signed64 u = if ZA.geq u two63 then ZA.sub u two64 else u
+
+(* ================================================================ relmap (ParseRelMapFile, lookups) *)
+let perr_s = function ETooSmall -> "err:too_small" | EBadMagic -> "err:bad_magic" | EBadCount -> "err:bad_count"
+let c_maps ms = c_list (List.map (fun (o, f) -> zs o ^ ":" ^ zs f) ms)
+let c_rm (rm : relmap) = [ "magic", zs rm.rm_magic; "num", zs rm.rm_num; "maps", c_maps rm.rm_mappings; "crc", zs rm.rm_crc ]
 let c_relmap (r : (perr, relmap) sum res) : string =
-  c_res (function
-    | Inl ETooSmall -> "err:too_small" | Inl EBadMagic -> "err:bad_magic" | Inl EBadCount -> "err:bad_count"
-    | Inr rm -> c_rec [ "magic", zs rm.rm_magic; "num", zs rm.rm_num;
-                        "maps", c_list (List.map (fun (o, f) -> zs o ^ ":" ^ zs f) rm.rm_mappings);
-                        "crc", zs rm.rm_crc ]) r
+  c_res (function Inl e -> perr_s e | Inr rm -> c_rec (c_rm rm)) r
 
 let magic = ZA.of_int 0x592717
+let known_oids = [| 1247; 1249; 1255; 1259; 1260; 1261; 1262; 2396; 2964; 3592; 6000; 6100; 1213; 2847; 3602; 1214; 3576 |]
 let gen_pair r dup : z * z =
   match dup with
   | Some (o, f) when rint r 4 = 0 -> if rbool r then (o, z_of_zarith (ru r 32)) else (z_of_zarith (ru r 32), f)
-  | _ -> if rint r 3 = 0 then (z_of_zarith (rdistinct r 32), z_of_zarith (rdistinct r 32))
-         else (z_of_zarith (ru r 32), z_of_zarith (ru r 32))
+  | _ -> (match rint r 4 with
+          | 0 -> (z_of_zarith (rdistinct r 32), z_of_zarith (rdistinct r 32))
+          | 1 -> (zi (pick r known_oids), z_of_zarith (rdistinct r 32))
+          | _ -> (z_of_zarith (ru r 32), z_of_zarith (ru r 32)))
 
 let gen_img r : relmap_img * string =
   let count = match rint r 8 with 0 -> 0 | 1 -> 62 | 2 -> 61 | 3 -> 1 | _ -> rrange r 0 62 in
@@ -25,22 +45,26 @@ let gen_img r : relmap_img * string =
   let slack = rbytes r (8 * (62 - count)) in
   let padn = pick r [| 4; 4; 5; 16; 512; 7684 |] in
   ({ sp_magic = z_of_zarith magic; sp_count = zi count; sp_maps = maps; sp_slack = slack;
-     sp_crc = z_of_zarith (rdistinct r 32); sp_pad = rbytes r padn }, Printf.sprintf "valid_n%d" (if count = 0 then 0 else if count = 62 then 62 else 1))
+     sp_crc = z_of_zarith (rdistinct r 32); sp_pad = rbytes r padn },
+   Printf.sprintf "valid_n%d" (if count = 0 then 0 else if count = 62 then 62 else 1))
 
-let expected_ok (img : relmap_img) : string =
-  c_rec [ "magic", zs img.sp_magic; "num", zs img.sp_count;
-          "maps", c_list (List.map (fun (o, f) -> zs o ^ ":" ^ zs f) img.sp_maps); "crc", zs img.sp_crc ]
+let exp_rm (img : relmap_img) =
+  [ "magic", zs img.sp_magic; "num", zs img.sp_count; "maps", c_maps img.sp_maps; "crc", zs img.sp_crc ]
+let expected_ok (img : relmap_img) : string = c_rec (exp_rm img)
 
 let run_parse ~tag ~s (v : byte list) (t : byte list) =
   let m = c_relmap (parseRelMapFile { vis = v; tail = t }) in
   emit ~fn:"ParseRelMapFile" ~tag ~s ~m [ hexf v; hexf t ]
 
-let set_u32 (bs : byte list) (off : int) (v : ZA.t) : byte list =
-  List.mapi (fun i b -> if i >= off && i < off + 4
-              then byte_of_int (ZA.to_int (ZA.logand (ZA.shift_right v (8 * (i - off))) (ZA.of_int 255))) else b) bs
-let take n l = List.filteri (fun i _ -> i < n) l
+let bad_image r (bytes : byte list) : byte list * string * string =
+  match rint r 3 with
+  | 0 -> let m' = pick r [| 0x592716; 0x592718; 0x17275900; 0; 0x592717 lxor (1 lsl (rint r 32)) |] in
+    (set_u32 bytes 0 (ZA.of_int m'), "bad_magic", "err:bad_magic")
+  | 1 -> let c = pick r [| 63; 64; 0xFFFFFFFF; 0x80000000; 0x7FFFFFFF; 1000 |] in
+    (set_u32 bytes 4 (ZA.of_int c), "bad_count", "err:bad_count")
+  | _ -> let n = pick r [| 0; 1; 4; 8; 507; 508; 511 |] in (take n bytes, "short", "err:too_small")
 
-let gen_case r k =
+let relmap_case r k =
   let img, tag = gen_img r in
   let bytes = enc_relmap img in
   match k mod 10 with
@@ -69,6 +93,341 @@ let gen_case r k =
     let v = rbytes r n in
     let v = if n >= 8 && rbool r then set_u32 (set_u32 v 0 magic) 4 (ZA.of_int (pick r [| 0; 1; 62; 63; 70 |])) else v in
     run_parse ~tag:"random" ~s:"-" v (if rbool r then rbytes r 16 else [])
+
+(* ---------------------------------------------------------------- relmap plumbing *)
+let rmerr_s = function ERmRead -> "err:read" | ERmParse e -> perr_s e
+let c_path = function PathGlobal -> "global" | PathDb o -> "db:" ^ zs o
+let c_rmfile (f : rmfile) = c_rec (c_rm f.rmf_map @ [ "isglobal", c_bool f.rmf_global; "path", c_path f.rmf_path ])
+let c_all r = c_res (function
+    | Inl e -> rmerr_s e
+    | Inr (g, l) -> c_rec [ "global", c_rmfile g; "dbs", c_list (List.map c_rmfile l) ]) r
+let exp_rmfile img glob path = c_rec (exp_rm img @ [ "isglobal", c_bool glob; "path", path ])
+
+let lower_names = "abcdefghijklmnopqrstuvwxyz0123456789_"
+let gen_ident r n = String.init n (fun _ -> lower_names.[rint r (String.length lower_names)])
+let gen_names r n : string list =   (* n distinct non-empty names; some start with "template" *)
+  let rec go acc = if List.length acc >= n then List.rev acc else
+      let s = match rint r 8 with
+        | 0 -> "template" ^ gen_ident r (rint r 3)
+        | 1 -> pick r [| "template0"; "template1"; "postgres"; "templat"; "mytemplate"; "Template1"; "emplate"; "template" |]
+        | 2 -> gen_ident r 1
+        | 3 -> gen_ident r 63
+        | _ -> gen_ident r (1 + rint r 12) in
+      if List.mem s acc then go acc else go (s :: acc) in
+  go []
+let gen_oids r n : int list =   (* n distinct positive oids *)
+  let rec go acc = if List.length acc >= n then List.rev acc else
+      let o = match rint r 4 with 0 -> 1 + rint r 5 | 1 -> 16384 + rint r 50 | _ -> 1 + rint r 0x3fffffff in
+      if List.mem o acc then go acc else go (o :: acc) in
+  go []
+let dbs_arg (dbs : (int * string) list) =
+  match dbs with [] -> "-" | _ -> String.concat "," (List.map (fun (o, n) -> string_of_int o ^ ":" ^ hex_of_string n) dbs)
+
+let relmap_all_case r =
+  let ndb = pick r [| 0; 1; 2; 3; 5 |] in
+  let dbs = List.combine (gen_oids r ndb) (gen_names r ndb) in
+  let gimg, _ = gen_img r in
+  let gbytes = enc_relmap gimg in
+  (* per database: valid image / missing file / rejected image *)
+  let per = List.map (fun (o, _) ->
+      let img, _ = gen_img r in
+      match rint r 5 with
+      | 0 -> (o, None, None)
+      | 1 -> let (b, _, _) = bad_image r (enc_relmap img) in (o, Some b, None)
+      | _ -> (o, Some (enc_relmap img), Some img)) dbs in
+  let mode = rint r 12 in
+  let gfile, gexp = match mode with
+    | 0 -> (None, `Err "err:read")
+    | 1 -> let (b, _, e) = bad_image r gbytes in (Some b, `Err e)
+    | _ -> (Some gbytes, `Ok) in
+  let dbs_known = mode <> 2 in
+  let fs = { rf_global = gfile;
+             rf_dbs = (if dbs_known then Some (List.map (fun (o, n) -> (zi o, bytes_of_string n)) dbs) else None);
+             rf_dbmap = (fun o -> match List.find_opt (fun (o', _, _) -> o' = iz o) per with Some (_, f, _) -> f | None -> None) } in
+  let s = match gexp with
+    | `Err e -> e
+    | `Ok -> c_rec [ "global", exp_rmfile gimg true "global";
+                     "dbs", c_list (if not dbs_known then [] else
+                                      List.filter_map (fun (o, _, img) -> match img with
+                                          | Some img -> Some (exp_rmfile img false ("db:" ^ string_of_int o)) | None -> None) per) ] in
+  let m = c_all (readAllRelMaps fs) in
+  let tag = match mode with 0 -> "all_noglobal" | 1 -> "all_badglobal" | 2 -> "all_nodblist" | _ -> Printf.sprintf "all_db%d" (min ndb 2) in
+  emit ~fn:"ReadAllRelMaps" ~tag ~s ~m
+    [ (match gfile with None -> "!" | Some b -> hexf b);
+      (if dbs_known then dbs_arg dbs else "!");
+      (match List.filter_map (fun (o, f, _) -> match f with Some b -> Some (string_of_int o ^ "=" ^ hexf b) | None -> None) per with
+       | [] -> "-" | l -> String.concat ";" l) ]
+
+let enhanced_case r =
+  let img, _ = gen_img r in
+  let bytes = enc_relmap img in
+  let render l = c_list (List.map (fun ((o, f), n) -> zs o ^ ":" ^ zs f ^ ":" ^ c_str n) l) in
+  (* the catalog-name column is the tool's own table (not PostgreSQL data): S takes it from there *)
+  let s = render (List.map (fun (o, f) -> ((o, f), getCatalogName o)) img.sp_maps) in
+  let m = match parseRelMapFile { vis = bytes; tail = [] } with
+    | Ok (Inr rm) -> render (getEnhancedMappings rm.rm_mappings) | Ok (Inl e) -> perr_s e | Panic -> "panic" in
+  emit ~fn:"GetEnhancedMappings" ~tag:"enhanced" ~s ~m [ hexf bytes ]
+
+(* ================================================================ sequences *)
+let serr_s = function
+  | ESeqFileSmall -> "err:file_small" | ESeqBadSpecial -> "err:bad_special" | ESeqNotSequence -> "err:not_sequence"
+  | ESeqNoItems -> "err:no_items" | ESeqBadItem -> "err:bad_item" | ESeqTupleSmall -> "err:tuple_small"
+  | ESeqDataShort -> "err:data_short" | ESeqModernShort -> "err:modern_short"
+let obs_fields (d : seqdata) = [ "last", zs d.sd_last; "called", c_bool d.sd_called ]
+let full_fields (d : seqdata) =
+  [ "last", zs d.sd_last; "start", zs d.sd_start; "inc", zs d.sd_inc; "max", zs d.sd_max; "min", zs d.sd_min;
+    "cache", zs d.sd_cache; "cycled", c_bool d.sd_cycled; "called", c_bool d.sd_called ]
+let c_seq_obs r = c_res (function Inl e -> serr_s e | Inr d -> c_rec (obs_fields d)) r
+let c_seq_full r = c_res (function Inl e -> serr_s e | Inr d -> c_rec (full_fields d)) r
+let c_isseq r = c_res c_bool r
+
+let gen_last r : ZA.t * string =
+  match rint r 12 with
+  | 0 -> (ZA.of_int (pick r [| 20; 21; 23 |]), "oidlike")
+  | 1 | 2 -> let hi = ZA.sub (rbits r 32) two31 in
+    (ZA.add (ZA.mul hi two32) (ZA.of_int (pick r [| 20; 21; 23 |])), "oidlike")
+  | 3 -> (pick r [| ZA.neg two63; ZA.pred two63; ZA.zero; ZA.one; ZA.minus_one; two32; two31; ZA.pred two32;
+                    ZA.of_int 19; ZA.of_int 22; ZA.of_int 24; ZA.neg two32 |], "boundary")
+  | 4 | 5 -> (ZA.of_int (rint r 100000), "small")
+  | 6 -> (ZA.neg (ZA.of_int (1 + rint r 100000)), "negative")
+  | _ -> (signed64 (rdistinct r 64), "distinct")
+
+let maxalign_down x = x land (lnot 7)
+let gen_seq ?(small = false) r : seqfile * string =
+  let last, ltag = gen_last r in
+  let logcnt = if rint r 5 = 0 then signed64 (rdistinct r 64) else ZA.of_int (rint r 33) in
+  let called = rbool r in
+  let hoff, special, upper, gtag =
+    if rint r 2 = 0 then (24, 8184, 8136, "pg")
+    else begin
+      let hoff = match rint r 6 with 0 -> 23 | 1 -> 32 | 2 -> 255 | 3 -> rrange r 23 255 | _ -> 24 in
+      let tl = hoff + 17 in
+      let special = match rint r 5 with 0 -> 8188 | 1 -> 8176 | 2 -> rrange r (28 + tl) 8188 | 3 -> 28 + tl | _ -> 8184 in
+      let upper = match rint r 4 with 0 -> 28 | 1 -> special - tl | 2 -> max 28 (maxalign_down (special - tl)) | _ -> rrange r 28 (special - tl) in
+      (hoff, special, upper, "geom")
+    end in
+  let lower = match rint r 6 with 0 -> 29 | 1 -> rrange r 28 65535 | 2 -> 65535 | _ -> 28 in
+  let lpflags = if rint r 4 = 0 then rint r 4 else 1 in
+  let fill n = if small then List.init n (fun _ -> byte_of_int 0) else if rint r 4 = 0 then List.init n (fun _ -> byte_of_int 0) else rbytes r n in
+  let more = if small then [] else match rint r 12 with 0 -> rbytes r 1 | 1 -> rbytes r 8192 | 2 -> rbytes r 100 | _ -> [] in
+  ({ sq_last = z_of_zarith last; sq_logcnt = z_of_zarith logcnt; sq_called = called;
+     sq_hoff = zi hoff; sq_lower = zi lower; sq_upper = zi upper; sq_special = zi special; sq_lpflags = zi lpflags;
+     sq_hdr0 = rbytes r 12; sq_hdr18 = rbytes r 6; sq_free = fill (upper - 28); sq_thdr = rbytes r 22;
+     sq_hpad = rbytes r (hoff - 23); sq_slack = fill (special - (upper + hoff + 17));
+     sq_srest = rbytes r (8192 - special - 4); sq_more = more },
+   ltag ^ "_" ^ gtag)
+
+let exp_obs (q : seqfile) = c_rec [ "last", zs (expected_last q); "called", c_bool (expected_called q) ]
+let run_seq ?(full = false) ~tag ~s v t =
+  let r = parseSequenceFile { vis = v; tail = t } in
+  if full then emit ~fn:"ParseSequenceFileFull" ~tag ~s ~m:(c_seq_full r) [ hexf v; hexf t ]
+  else emit ~fn:"ParseSequenceFile" ~tag ~s ~m:(c_seq_obs r) [ hexf v; hexf t ]
+let run_isseq ~tag ~s v t =
+  emit ~fn:"IsSequenceFile" ~tag ~s ~m:(c_isseq (isSequenceFile { vis = v; tail = t })) [ hexf v; hexf t ]
+
+let lp_word off flags len = ZA.of_int (off lor (flags lsl 15) lor (len lsl 17))
+let oidlike_prefix r (data : byte list) =
+  if List.length data >= 4 && rbool r then set_u32 data 0 (ZA.of_int (pick r [| 20; 21; 23; 22; 19 |])) else data
+
+let tuple_lengths = [| 0; 1; 7; 8; 9; 15; 16; 17; 18; 40; 51; 52; 53; 55; 56; 57; 58; 59; 64; 65; 66; 100 |]
+
+let seq_case r k =
+  let q, tag = gen_seq r in
+  let bytes = enc_seq q in
+  let hoff = iz q.sq_hoff and upper = iz q.sq_upper and special = iz q.sq_special in
+  match k mod 20 with
+  | 0 | 1 | 2 | 3 | 4 | 5 | 18 | 19 -> run_seq ~tag:("seq_" ^ tag) ~s:(exp_obs q) bytes (rtail r)
+  | 6 -> run_seq ~full:true ~tag:("seqfull_" ^ tag)
+           ~s:(c_rec [ "last", zs (expected_last q); "start", "0"; "inc", "0"; "max", "0"; "min", "0"; "cache", "0";
+                       "cycled", "false"; "called", c_bool (expected_called q) ]) bytes (rtail r)
+  | 7 -> run_isseq ~tag:"isseq_valid" ~s:"true" bytes (rtail r)
+  | 8 -> (* the magic word altered: all four bytes count *)
+    let m' = pick r [| 0x1716; 0x1718; 0x11717; 0x17170000; 0x1717 lxor (1 lsl (rint r 32)); 0x1717 lxor (1 lsl (16 + rint r 16));
+                       0x1700; 0x0017; 0x17171717; 0 |] in
+    let v = set_u32 bytes special (ZA.of_int m') in
+    if rbool r then run_isseq ~tag:"isseq_badmagic" ~s:"false" v (rtail r)
+    else run_seq ~tag:"seq_badmagic" ~s:"err:not_sequence" v (rtail r)
+  | 9 -> (* special pointer boundaries: a valid magic word is placed wherever it still fits *)
+    let sp = pick r [| 0; 1; 8187; 8188; 8189; 8190; 8191; 8192; 65535; 4 |] in
+    let v = set_u16 bytes 16 sp in
+    let v = if sp + 4 <= List.length v then set_u32 v sp (ZA.of_int 0x1717) else v in
+    let ok = sp > 0 && sp + 4 <= 8192 in
+    if rbool r then run_isseq ~tag:(Printf.sprintf "isseq_special_%s" (if ok then "in" else "out")) ~s:(c_bool ok) v (rtail r)
+    else run_seq ~tag:"seq_special" ~s:(if ok then "-" else "err:bad_special") v (rtail r)
+  | 10 -> (* short files *)
+    let n = pick r [| 0; 1; 18; 100; 8191; 8184; 4096 |] in
+    let v = take n bytes in
+    let t = if rbool r then rbytes r 64 else [] in
+    if rbool r then run_isseq ~tag:"short" ~s:"false" v t else run_seq ~tag:"short" ~s:"err:file_small" v t
+  | 11 -> (* pd_lower / line-pointer guards *)
+    (match rint r 4 with
+     | 0 -> let lo = pick r [| 0; 24; 27; 28; 29 |] in
+       run_seq ~tag:"mal_lower" ~s:(if lo < 28 then "err:no_items" else exp_obs q) (set_u16 bytes 12 lo) (rtail r)
+     | 1 -> run_seq ~tag:"mal_lp_off0" ~s:"-" (set_u32 bytes 24 (lp_word 0 1 (hoff + 17))) (rtail r)
+     | 2 -> run_seq ~tag:"mal_lp_len0" ~s:"-" (set_u32 bytes 24 (lp_word upper 1 0)) (rtail r)
+     | _ -> let len = pick r [| 8192 - upper; 8193 - upper; 8191 - upper |] in
+       run_seq ~full:true ~tag:"mal_lp_end" ~s:"-" (set_u32 bytes 24 (lp_word upper 1 (min len 32767))) (rtail r))
+  | 12 -> (* item length around the header / data thresholds *)
+    let len = pick r [| 22; 23; 24; 25; 30; 31; 32; hoff - 1; hoff; hoff + 1; hoff + 7; hoff + 8; hoff + 9; hoff + 16; hoff + 17; hoff + 18 |] in
+    let len = max 1 (min len (8192 - upper)) in
+    run_seq ~full:true ~tag:"mal_lp_len" ~s:"-" (set_u32 bytes 24 (lp_word upper 1 len)) (rtail r)
+  | 13 -> (* t_hoff byte around its guards *)
+    let l = hoff + 17 in
+    let h = pick r [| 0; 1; 22; 23; 24; 25; l - 18; l - 17; l - 16; l - 9; l - 8; l - 7; l - 1; l; l + 1; 255 |] in
+    let h = max 0 (min h 255) in
+    run_seq ~full:true ~tag:"mal_hoff" ~s:"-" (set_at bytes (upper + 22) [ byte_of_int h ]) (rtail r)
+  | 14 -> (* long tuple bodies: the 52/57-byte layouts of the code, with and without an oid-like first word *)
+    let n = pick r tuple_lengths in
+    let up = 100 + rint r 1000 in
+    let data = oidlike_prefix r (List.map (fun _ -> byte_of_int (1 + rint r 255)) (List.init n (fun i -> i))) in
+    let v = set_u32 bytes 24 (lp_word up 1 (24 + n)) in
+    let v = set_at v (up + 22) [ byte_of_int 24 ] in
+    let v = set_at v (up + 24) data in
+    run_seq ~full:true ~tag:(Printf.sprintf "mal_body_%s" (if n < 8 then "lt8" else if n < 52 then "lt52" else if n < 57 then "lt57" else "ge57"))
+      ~s:"-" v (rtail r)
+  | 15 | 16 -> (* parseSequenceTuple directly *)
+    if rint r 3 = 0 then begin
+      let v = enc_seqdata q in
+      emit ~fn:"parseSequenceTuple" ~tag:"tuple_pg10"
+        ~s:(c_rec [ "last", zs (expected_last q); "start", "0"; "inc", "0"; "max", "0"; "min", "0"; "cache", "0";
+                    "cycled", "false"; "called", c_bool (expected_called q) ])
+        ~m:(c_seq_full (parseSequenceTuple { vis = v; tail = [] })) [ hexf v; "-" ]
+    end else begin
+      let n = pick r tuple_lengths in
+      let v = oidlike_prefix r (List.init n (fun _ -> byte_of_int (if rint r 6 = 0 then 0 else 1 + rint r 255))) in
+      let t = rtail r in
+      emit ~fn:"parseSequenceTuple" ~tag:(Printf.sprintf "tuple_%s" (if n < 8 then "lt8" else if n < 17 then "lt17" else if n < 52 then "lt52" else if n < 57 then "lt57" else "ge57"))
+        ~s:"-" ~m:(c_seq_full (parseSequenceTuple { vis = v; tail = t })) [ hexf v; hexf t ]
+    end
+  | 17 -> (* arbitrary pages *)
+    let n = pick r [| 8192; 8192; 8193; 16384; 8191 |] in
+    let v = rbytes r n in
+    let v = if n >= 8192 && rint r 4 <> 0 then begin
+        let sp = pick r [| 8184; 8188; 8000; 8189 |] in
+        let v = set_u16 v 16 sp in
+        let v = if sp + 4 <= n then set_u32 v sp (ZA.of_int 0x1717) else v in
+        let v = if rbool r then set_u16 v 12 (28 + rint r 100) else v in
+        if rbool r then set_u32 v 24 (lp_word (1 + rint r 8100) (rint r 4) (1 + rint r 200)) else v
+      end else v in
+    if rint r 3 = 0 then run_isseq ~tag:"random" ~s:"-" v (rtail r) else run_seq ~full:true ~tag:"random" ~s:"-" v (rtail r)
+  | _ -> ()
+
+(* ---------------------------------------------------------------- listings *)
+let c_line name oid fn last called =
+  c_rec [ "name", c_str name; "oid", zs oid; "fn", zs fn; "last", zs last; "called", c_bool called ]
+let c_lines_spec (l : listing_line list) =
+  c_list (List.map (fun ((((n, o), f), lv), c) -> c_line n o f lv c) l)
+let c_lines_model (l : seqentry list) =
+  c_list (List.map (fun e -> c_line e.se_name e.se_oid e.se_filenode e.se_data.sd_last e.se_data.sd_called) l)
+let ferr_s = function EReadFailed -> "err:read" | EDbNotFound -> "err:not_found"
+let c_smap (render : 'a -> string) (m : (byte list * 'a) list) =
+  let tbl = Hashtbl.create 8 in
+  List.iter (fun (k, v) -> Hashtbl.replace tbl (string_of_bytes k) v) m;
+  let keys = List.sort_uniq compare (Hashtbl.fold (fun k _ acc -> k :: acc) tbl []) in
+  "m{" ^ String.concat "," (List.map (fun k -> hex_of_string k ^ ":" ^ render (Hashtbl.find tbl k)) keys) ^ "}"
+
+type relfile = FNone | FBytes of byte list
+let other_kinds = [| "r"; "i"; "t"; "v"; "s"; "m"; "p"; "R" |]
+
+(* one database: relations (sequences among others, physically shuffled), files; [corrupt] damages some
+   sequence files / removes them (then the case has no spec expectation) *)
+let gen_db r ~oid ~name ~nseq ~corrupt : dbase * (int * relfile) list =
+  let nother = rint r 6 in
+  let n = nseq + nother in
+  let fns = gen_oids r n and oids = gen_oids r n and names = gen_names r n in
+  let kinds = shuffle r (List.init n (fun i -> if i < nseq then "S" else pick r other_kinds)) in
+  let rels = List.mapi (fun i kind ->
+      let q, _ = gen_seq ~small:true r in
+      let fn = List.nth fns i in
+      let oid = if rbool r then fn else List.nth oids i in
+      { r_oid = zi oid; r_filenode = zi fn; r_name = bytes_of_string (List.nth names i);
+        r_kind = bytes_of_string kind; r_seq = q }) kinds in
+  let files = List.map (fun rl ->
+      let fn = iz rl.r_filenode in
+      if string_of_bytes rl.r_kind = "S" then
+        (if corrupt && rint r 3 = 0 then
+           (match rint r 4 with
+            | 0 -> (fn, FNone)
+            | 1 -> (fn, FBytes (take 8191 (enc_seq rl.r_seq)))
+            | 2 -> (fn, FBytes (set_u32 (enc_seq rl.r_seq) (iz rl.r_seq.sq_special) (ZA.of_int 0x11717)))
+            | _ -> (fn, FBytes (set_u16 (enc_seq rl.r_seq) 12 24)))
+         else (fn, FBytes (enc_seq rl.r_seq)))
+      else
+        (match rint r 3 with
+         | 0 -> (fn, FNone)
+         | 1 -> (fn, FBytes (enc_seq rl.r_seq))      (* a sequence-looking file under another relkind *)
+         | _ -> (fn, FBytes (rbytes r 64)))) rels in
+  ({ d_oid = zi oid; d_name = bytes_of_string name; d_rels = rels }, files)
+
+let entries_of r (d : dbase) : (z * tableinfo) list =
+  shuffle r (List.map (fun rl -> (rl.r_filenode, { ti_oid = rl.r_oid; ti_filenode = rl.r_filenode;
+                                                   ti_name = rl.r_name; ti_kind = rl.r_kind })) d.d_rels)
+let class_arg (cl : (dbase * (int * relfile) list) list) (noclass : int list) =
+  match List.filter (fun (d, _) -> not (List.mem (iz d.d_oid) noclass)) cl with
+  | [] -> "-"
+  | l -> String.concat ";" (List.map (fun (d, _) ->
+      zs d.d_oid ^ "=" ^ String.concat "," (List.map (fun rl ->
+          zs rl.r_oid ^ ":" ^ zs rl.r_filenode ^ ":" ^ hex_of_bytes rl.r_name ^ ":" ^ hex_of_bytes rl.r_kind) d.d_rels)) l)
+let files_arg (cl : (dbase * (int * relfile) list) list) =
+  match List.concat_map (fun (d, fl) -> List.filter_map (fun (fn, f) -> match f with
+      | FNone -> None | FBytes b -> Some (zs d.d_oid ^ "/" ^ string_of_int fn ^ "=" ^ hexf b)) fl) cl with
+  | [] -> "-" | l -> String.concat ";" l
+
+let listing_case r k =
+  let scan = (k mod 2 = 1) in
+  let ndb = if scan then pick r [| 0; 1; 2; 3; 4 |] else pick r [| 1; 2; 3 |] in
+  let corrupt = rint r 5 = 0 in
+  let nodblist = rint r 25 = 0 in
+  let oids = gen_oids r ndb and names = gen_names r ndb in
+  let cl = List.map2 (fun oid name ->
+      let nseq = match rint r 8 with 0 -> 0 | 1 -> 1 | 2 -> 2 | 3 -> (if scan then 5 else 30) | _ -> rint r (if scan then 6 else 12) in
+      gen_db r ~oid ~name ~nseq ~corrupt) oids names in
+  let noclass = if rint r 10 = 0 && ndb > 0 then [ List.nth oids (rint r ndb) ] else [] in
+  let spec_ok = not corrupt && not nodblist in
+  let orders = List.map (fun (d, _) -> (iz d.d_oid, entries_of r d)) cl in
+  let fs = { fs_dbs = (if nodblist then None else Some (List.map (fun (d, _) -> (d.d_oid, d.d_name)) cl));
+             fs_class = (fun o -> if List.mem (iz o) noclass then None else List.assoc_opt (iz o) orders);
+             fs_file = (fun o fn -> match List.find_opt (fun (d, _) -> iz d.d_oid = iz o) cl with
+                 | None -> None
+                 | Some (_, fl) -> (match List.assoc_opt (iz fn) fl with Some (FBytes b) -> Some b | _ -> None)) } in
+  let a_dbs = if nodblist then "!" else dbs_arg (List.map (fun (d, _) -> (iz d.d_oid, string_of_bytes d.d_name)) cl) in
+  if scan then begin
+    let s = if nodblist then "err:read" else if not spec_ok then "-"
+      else c_smap c_lines_spec (expected_scan (List.filter_map (fun (d, _) -> if List.mem (iz d.d_oid) noclass then None else Some d) cl)) in
+    let m = c_res (function None -> "err:read" | Some l -> c_smap c_lines_model l) (scanAllSequences fs) in
+    emit ~fn:"ScanAllSequences" ~tag:(if corrupt then "scan_corrupt" else if nodblist then "scan_nodblist" else Printf.sprintf "scan_db%d" (min ndb 2))
+      ~s ~m [ a_dbs; class_arg cl noclass; files_arg cl ]
+  end else begin
+    let target, texp =
+      if rint r 8 = 0 || ndb = 0 then
+        (let (d, _) = List.hd cl in
+         let nm = string_of_bytes d.d_name in
+         let bad = pick r [| nm ^ "x"; String.sub nm 0 (String.length nm - 1); String.uppercase_ascii nm ^ "_"; "" |] in
+         if List.exists (fun (d, _) -> string_of_bytes d.d_name = bad) cl then (nm ^ "zz", `NotFound) else (bad, `NotFound))
+      else (let (d, _) = pickl r cl in (string_of_bytes d.d_name, `Db d)) in
+    let s = if nodblist then "err:read" else match texp with
+        | `NotFound -> "err:not_found"
+        | `Db d -> if List.mem (iz d.d_oid) noclass then "err:read" else if not spec_ok then "-" else c_lines_spec (expected_listing d) in
+    let m = c_res (function Inl e -> ferr_s e | Inr l -> c_lines_model l) (findSequences fs (bytes_of_string target)) in
+    let nseq = match texp with `Db d -> List.length (List.filter (fun rl -> string_of_bytes rl.r_kind = "S") d.d_rels) | _ -> -1 in
+    emit ~fn:"FindSequences"
+      ~tag:(if corrupt then "find_corrupt" else if nodblist then "find_nodblist" else if nseq < 0 then "find_notfound"
+            else Printf.sprintf "find_n%s" (if nseq = 0 then "0" else if nseq = 1 then "1" else if nseq >= 30 then "30" else "k"))
+      ~s ~m [ a_dbs; hexf (bytes_of_string target); class_arg cl noclass; files_arg cl ]
+  end
+
+(* ================================================================ schedule *)
+(* of every 40 consecutive case indexes: 12 relmap parser, 2 relmap plumbing, 2 enhanced, 20 sequence files
+   (18 used), 4 listings *)
+let gen_case r k =
+  match k mod 40 with
+  | j when j < 10 -> relmap_case r j
+  | 10 | 11 -> relmap_case r (k / 40 mod 10)
+  | 12 | 13 -> relmap_all_case r
+  | 14 -> enhanced_case r
+  | 15 -> relmap_case r 7
+  | j when j < 36 -> seq_case r (j - 16)
+  | _ -> listing_case r k
 
 let gen seed n = for k = 0 to n - 1 do gen_case (rng_for seed k) k done
 let () = main gen
